@@ -905,6 +905,7 @@ func run(seed int64, n int, dir string, _ []string) {
 			}
 			literalCaseCheck(g, o, pr, rows, cpu)
 			literalCaseCheck(g, o, pr, rows, cpu)
+			identCases(g, o, pr, rows, cpu)
 			if akind != aMixed {
 				groupedListAgg(g, o, pr, rows, cpu)
 				groupedListAgg(g, o, pr, rows, cpu)
